@@ -715,6 +715,10 @@ func (ref *Node) DoNewObject(t reflect.Type, m meta.Definition, insideList bool)
 		x, isList := m.(*meta.List)
 		if isList && !insideList {
 			keyMeta := x.KeyMeta()
+			if len(keyMeta) == 0 {
+				// nothing to file the entries under in a map
+				return reflect.ValueOf(make([]interface{}, 0)), nil
+			}
 			if len(keyMeta) == 1 {
 				// support some common key types, but anything too unusual should have
 				// custom implementation and would default to map[interface{}]interface{}
